@@ -70,6 +70,8 @@ def main():
     finally:
         sh("git -C %s checkout -- ." % REPO)
         sh("git -C %s clean -fdq -- tests" % REPO)
+        if not a.in_place:
+            sh("git -C %s clean -fdq -e target" % REPO)          # files a patch added outside tests/ (scratch worktree only)
     meta["caught_by"] = sorted(set(x["check"] + ":" + x["tier"] for x in runs if x["exit"] == 1))
     meta["caught_by_own_property"] = any(x["exit"] == 1 and x["check"] == a.prop for x in runs)
     json.dump(meta, open(meta_p, "w"), indent=1, ensure_ascii=False)
